@@ -169,8 +169,25 @@ def code_tie(ctx, rep):
     rep.extra["translator_tie"] = {"status": "checked" if ok else "broken", "generated_file_changed": changed,
                                    "methods": ukv_methods()}
     rep.count("translator-tie:" + ("checked" if ok else "broken"))
-    rep.trusted.append("harness/ukv_translate.py (syntactic Python->MiniPy translator) and the semantics coq/Model/MiniPy.v")
-    return ("checked" if ok else "broken"), ok, out, where
+    rep.trusted.append("harness/ukv_translate.py (syntactic Python->MiniPy translator) and the semantics coq/Model/MiniPy.v, coq/Model/MiniPyB.v")
+    if not ok:
+        return "broken", ok, out, where
+    # second layer: the buffering layer of backends.py (needs the first: its calls carry the translated UKVFile methods)
+    try:
+        btxt = T.translate_backend(vlib.REPO)
+    except (T.Refuse, SyntaxError) as e:
+        rep.extra["translator_tie_backend"] = {"status": "refused", "reason": str(e)[:300],
+                                               "consequence": "Props/C02bcode.v was not re-checked against this source; Model/Backend.v is tied to it by the differential correspondence only"}
+        rep.count("translator-tie-backend:refused")
+        return "checked", True, out, where
+    with vlib.CoqLock():
+        bchanged = vlib.write_if_changed(os.path.join(vlib.COQ, "Gen", "BackendCode.v"), btxt)
+    bok, bout, bwhere = vlib.build_props(ctx, rep, "C02bcode")
+    rep.extra["translator_tie_backend"] = {"status": "checked" if bok else "broken", "generated_file_changed": bchanged, "methods": list(T.BMETHODS)}
+    rep.count("translator-tie-backend:" + ("checked" if bok else "broken"))
+    if not bok:
+        return "broken", False, bout, bwhere
+    return "checked", True, out, where
 
 
 def ukv_methods():
